@@ -251,6 +251,8 @@ pub struct HistStep {
     pub case: CntCase,
     pub delete: bool,
     pub reuse: bool,
+    /// with `reuse`: only `merge` is called again (after the setters), no second `count()`
+    pub merge_only: bool,
 }
 
 #[derive(Clone, Debug)]
@@ -260,7 +262,7 @@ pub struct CntHistory {
 
 impl CntHistory {
     pub fn req(&self) -> String {
-        format!("cnthist {}", self.steps.iter().map(|s| format!("{}/{}/{}", s.case.req().replace(' ', "/"), if s.delete { 1 } else { 0 }, if s.reuse { 1 } else { 0 })).collect::<Vec<_>>().join(" "))
+        format!("cnthist {}", self.steps.iter().map(|s| format!("{}/{}/{}", s.case.req().replace(' ', "/"), if s.delete { 1 } else { 0 }, if s.reuse && s.merge_only { 2 } else if s.reuse { 1 } else { 0 })).collect::<Vec<_>>().join(" "))
     }
     pub fn parse(line: &str) -> Option<CntHistory> {
         let w: Vec<&str> = line.split_whitespace().collect();
@@ -274,12 +276,12 @@ impl CntHistory {
                 return None;
             }
             let case = CntCase::parse(&f[..7].join(" "))?;
-            steps.push(HistStep { case, delete: f[7] == "1", reuse: f[8] == "1" });
+            steps.push(HistStep { case, delete: f[7] == "1", reuse: f[8] == "1" || f[8] == "2", merge_only: f[8] == "2" });
         }
         Some(CntHistory { steps })
     }
     pub fn describe(&self) -> String {
-        self.steps.iter().map(|s| format!("[{} merge({}) {}]", s.case.describe(), s.delete, if s.reuse { "same object again" } else { "new object" })).collect::<Vec<_>>().join(" then ")
+        self.steps.iter().map(|s| format!("[{} merge({}) {}]", s.case.describe(), s.delete, if s.reuse && s.merge_only { "same object, merge only" } else if s.reuse { "same object again" } else { "new object" })).collect::<Vec<_>>().join(" then ")
     }
 }
 
@@ -306,7 +308,9 @@ pub fn eval_history(h: &CntHistory, model: &Model, work: &str, uid: &str) -> Opt
             let cc = obj.as_mut().unwrap();
             cc.set_max_memory(st.case.mem);
             cc.set_acgt_output(st.case.acgt);
-            cc.count();
+            if !(st.reuse && st.merge_only) {
+                cc.count();
+            }
             cc.merge(st.delete);
         }
     }));
@@ -405,7 +409,12 @@ pub fn run_lib_histories(rep: &mut Report, tier: &str, seed: u64, model: &Model,
                 if i == 1 && plain_first && !reuse {
                     case.threads = *rng.pick(&[2usize, 3, 4]);
                 }
-                steps.push(HistStep { case, delete, reuse });
+                let merge_only = reuse && rng.chance(1, 2);
+                if merge_only {
+                    // the ceiling only matters to `count()`
+                    case.mem = steps[i - 1].case.mem;
+                }
+                steps.push(HistStep { case, delete, reuse, merge_only });
             }
             hs.push((CntHistory { steps }, "library-histories"));
         }
